@@ -530,7 +530,6 @@ func checkC20Reported(c *Ctx, fns []*ssa.Function) {
 	}
 }
 
-
 // returnedAlong enumerates the values result #idx can have at the returns reachable from the edge prev->start,
 // resolving every phi met on the way by the predecessor actually taken (acyclic paths, bounded).
 func returnedAlong(f *ssa.Function, prev, start *ssa.BasicBlock, idx int) []ssa.Value {
@@ -621,7 +620,6 @@ func returnedAlongX(f *ssa.Function, prev, start *ssa.BasicBlock, idx int, block
 	walk(start, prev, map[*ssa.Phi]ssa.Value{}, map[*ssa.BasicBlock]bool{})
 	return out
 }
-
 
 // dependsOnNoPhi: v is computed from ev without passing through a phi (a wrapped or converted form of it).
 func dependsOnNoPhi(v, ev ssa.Value) bool {
